@@ -152,6 +152,10 @@ def gen_session_writes(rng: random.Random) -> dict:
                     msgs.append(sized_msg(rng, max(0, target)))
                 else:
                     msgs.append(pick(rng, SMALL))
+            if rng.random() < 0.1:
+                # a batch the library must refuse as a whole: one message has no type id (a nested message type passed by
+                # mistake); nothing of it may reach the wire and the cipher state must be untouched for the later sends
+                msgs.insert(rng.randint(0, len(msgs)), ["HomeassistantServiceMap", {"key": "a", "value": "b"}])
             steps.append({"do": "send", "msgs": msgs})
             steps.append({"do": "sleep", "d": pick(rng, [0.0, 0.0, 0.01, 0.5, 1.0])})
         actors.append({"id": f"w{w}", "at": {"on": "state", "match": {"new": "CONNECTED"}, "delay": pick(rng, [0.0, 0.1, 0.5])}, "steps": steps})
